@@ -1,5 +1,5 @@
 (* Jit.Tactics: lemmas and tactics shared by the per-kernel safety proofs (coq/Inv). *)
-From Coq Require Import ZArith QArith String List Bool Lia ZifyBool.
+From Coq Require Import ZArith QArith String List Bool Lia.
 From Verif Require Import Jit.Lang Jit.Interp Jit.Safety.
 Import ListNotations.
 Open Scope Z_scope.
@@ -63,6 +63,12 @@ Lemma zlen_zeros : forall dt n v, zlen (zeros dt n v) = Z.max 0 n.
 Proof. intros; unfold zlen, zeros; rewrite repeat_length; lia. Qed.
 Lemma zlen_map : forall {A B} (f : A -> B) l, zlen (map f l) = zlen l.
 Proof. intros; unfold zlen; rewrite map_length; reflexivity. Qed.
+Lemma zlen_cmp_cells : forall op v d, zlen (cmp_cells op v d) = zlen d.
+Proof. intros; unfold cmp_cells; apply zlen_map. Qed.
+Lemma zlen_div_cells_sc : forall v d, zlen (div_cells_sc v d) = zlen d.
+Proof. intros; unfold div_cells_sc; apply zlen_map. Qed.
+Lemma zlen_coerce_cells : forall dt d, zlen (coerce_cells dt d) = zlen d.
+Proof. intros; unfold coerce_cells; apply zlen_map. Qed.
 Lemma zlen_gather : forall d ix, zlen (gather d ix) = zlen ix.
 Proof. intros; unfold gather; apply zlen_map. Qed.
 
@@ -80,7 +86,8 @@ Proof.
   rewrite Nat.min_id. reflexivity.
 Qed.
 
-#[export] Hint Rewrite zlen_updZ zlen_zeros @zlen_map zlen_gather zlen_argsort : zlen.
+#[export] Hint Rewrite zlen_updZ zlen_zeros @zlen_map zlen_gather zlen_argsort zlen_cmp_cells
+  zlen_div_cells_sc zlen_coerce_cells : zlen.
 
 (* ---------- the VC tactic ---------- *)
 Ltac wp_compute k annf :=
@@ -90,14 +97,29 @@ Ltac wp_compute k annf :=
      find_func fname is_sc is_ar alen acols adt adata forall_rets];
   cbn [to_int truthy eval_cmp eval_binop is_flt orb binop_int cmp_int coerce negb].
 
+(* turn a boolean test on integers into a proposition (ZifyBool is deliberately not used: its
+   preprocessing of every boolean hypothesis dominated the proof time) *)
+Ltac b2p H :=
+  repeat first [ rewrite negb_true_iff in H | rewrite negb_false_iff in H ];
+  lazymatch type of H with
+  | (_ <? _)%Z = true => apply Z.ltb_lt in H
+  | (_ <? _)%Z = false => apply Z.ltb_ge in H
+  | (_ <=? _)%Z = true => apply Z.leb_le in H
+  | (_ <=? _)%Z = false => apply Z.leb_gt in H
+  | (_ =? _)%Z = true => apply Z.eqb_eq in H
+  | (_ =? _)%Z = false => apply Z.eqb_neq in H
+  | _ => idtac
+  end.
+
 Ltac simp_hyp H :=
   cbn [truthy negb to_int] in H;
-  repeat match type of H with
-         | context [if ?b then _ else _] =>
-             let E := fresh "E" in destruct b eqn:E; cbn [truthy negb to_int] in H
-         end;
   try discriminate H;
-  try (progress autorewrite with zlen in H).
+  lazymatch type of H with
+  | context [if ?b then _ else _] =>
+      let E := fresh "E" in destruct b eqn:E; simp_hyp E; simp_hyp H
+  | ?x = ?x => clear H
+  | _ => b2p H; try (progress autorewrite with zlen in H)
+  end.
 
 (* 0 <= zlen l for every list of cells in the context (new lists get theirs when introduced) *)
 Ltac init_lists :=
